@@ -40,8 +40,8 @@ static std::vector<Op> buildAlphabet(const std::string& name, Limits& L, const s
         A.push_back(opSubmitStored(0, "n", L)); A.push_back(opSubmitStored(0, "app", L));   // a stored frame handed back to the object
         for (auto w : {"both", "pt", "an"}) A.push_back(opFrameFree(w, 0, L));
         A.push_back(opFrameEmpty(L));
-        for (auto d : {"ok", "ok2", "fewer", "more", "none", "nocol", "dup", "dup2", "ragged"}) A.push_back(opColPoint(d, 0, L));
-        for (auto d : {"ok", "ok2", "fewer", "more", "none", "nocol", "sub_fewer", "sub_more", "dup", "dup2", "ragged"}) A.push_back(opColAnalog(d, 0, L));
+        for (auto d : {"ok", "ok2", "fewer", "more", "none", "nocol", "dup", "dup2", "ragged", "surplus"}) A.push_back(opColPoint(d, 0, L));
+        for (auto d : {"ok", "ok2", "fewer", "more", "none", "nocol", "sub_fewer", "sub_more", "dup", "dup2", "ragged", "surplus"}) A.push_back(opColAnalog(d, 0, L));
         A.push_back(opParamBad("NEWB", true, false)); A.push_back(opParamBad("POINT", false, true)); A.push_back(opParamBad("NEWB", false, false));
         A.push_back(opLock("NOPE", true)); A.push_back(opLock("NOPE", false));
         A.push_back(opParamMandatoryBad("POINT", "RATE", "int")); A.push_back(opParamMandatoryBad("POINT", "USED", "empty-int")); A.push_back(opParamMandatoryBad("ANALOG", "USED", "string")); A.push_back(opParamMandatoryBad("POINT", "FRAMES", "float"));   // (ANALOG:RATE is only read when POINT:RATE is set: not refused in every state, hence not generated)
@@ -53,7 +53,7 @@ static std::vector<Op> buildAlphabet(const std::string& name, Limits& L, const s
         A.push_back(opRate("POINT", 100.f, L)); A.push_back(opRate("ANALOG", 200.f, L));
         for (auto t : {"app", "0", "1", "last", "n", "n+1", "n+2"}) for (int vs : {0, 2}) A.push_back(opFrame("ok", t, vs, L));
         A.push_back(opFrame("ok", "app", 1, L));
-        A.push_back(opColPoint("ok", 1, L)); A.push_back(opColPoint("ok2", 2, L)); A.push_back(opColAnalog("ok", 1, L)); A.push_back(opColAnalog("ok2", 2, L));
+        A.push_back(opColPoint("ok", 1, L)); A.push_back(opColPoint("ok2", 2, L)); A.push_back(opColAnalog("ok", 1, L)); A.push_back(opColAnalog("ok2", 2, L)); A.push_back(opColPoint("surplus", 1, L)); A.push_back(opColAnalog("surplus", 1, L));
         for (int r : {0, 1}) { A.push_back(opRegBuild(r, r)); A.push_back(opRegSubmit(r, "app", L)); A.push_back(opRegMut(r, "px")); }
         A.push_back(opRegSubmit(0, "0", L)); A.push_back(opRegSubmit(0, "n+1", L)); A.push_back(opRegMut(0, "ch")); A.push_back(opRegExt(0, L)); A.push_back(opRegCopy(1, 0));
         A.push_back(opRegSubmitTemp(0, "app", L)); A.push_back(opRegSubmitTemp(0, "n+1", L)); A.push_back(opRegSubmitTemp(1, "0", L));
